@@ -212,7 +212,7 @@ def r5_3(ctx):
     else:
         ctx.bad("R5.3", fi.module, fi.qual, "msg_keys_to_delete = self.sequences['Deleted']", "expunge candidates are no longer exactly the \\Deleted sequence", fi.node.lineno)
     # uid restriction: new_to_delete only gets elements whose uid is in both uid_msg_set and uids_to_delete
-    restr = [s for s in body_walk(fi.node) if isinstance(s, ast.If) and norm(s.test) == "uid_msg_set"]
+    restr = [s for s in body_walk(fi.node) if isinstance(s, ast.If) and norm(s.test) in ("uid_msg_set", "uid_msg_set is not None")]
     if restr:
         body = restr[0]
         okr = any(isinstance(f, ast.For) and norm(f.iter) == "uid_msg_set" and any(isinstance(i, ast.If) and norm(i.test) == "uid in uids_to_delete" for i in f.body) for f in body.body)
